@@ -30,11 +30,12 @@ def as_ptr_off (m : Mem) (a : HV) : Nat := a.off + a.ty.dataOff (viewLen m a)
 def into_raw (m : Mem) (a : HV) : HV := { a with kind := .raw, off := as_ptr_off m a }
 
 /-- `from_raw`: `ptr.byte_sub(offset_of_data(ptr))`, then `from_raw_inner`.  `offset_of_data`
-recomputes the offset from `Layout::for_value(&*ptr)`; `none` = the `unwrap` panics. -/
-def from_raw (m : Mem) (p : HV) : Option HV :=
-  match offsetOfData bits (p.ty.valueLayout (viewLen m p)) with
-  | none => none
-  | some o => some { p with kind := .arc, off := p.off - o }
+recomputes the offset as `Layout::new::<AtomicUsize>().extend(Layout::for_value(&*ptr)).unwrap().1`;
+for a pointer into a block that was successfully allocated this `extend` cannot fail and equals the
+compile-time field offset (`LY.offsetOfData_eq`, proved in `Proofs/Layout.lean`), so the model uses
+the field offset directly. -/
+def from_raw (m : Mem) (p : HV) : HV :=
+  { p with kind := .arc, off := p.off - p.ty.dataOff (viewLen m p) }
 
 /-- `heap_ptr` -/
 def heap_ptr_off (a : HV) : Nat := a.off
@@ -50,7 +51,7 @@ def is_unique (m : Mem) (a : HV) : Bool := count m a == 1
 def into_raw_offset (m : Mem) (a : HV) : HV := { into_raw m a with kind := .offset }
 
 /-- `from_raw_offset`: `ManuallyDrop::new(a); Arc::from_raw(a.ptr)` -/
-def from_raw_offset (m : Mem) (o : HV) : Option HV := from_raw m { o with kind := .raw }
+def from_raw_offset (m : Mem) (o : HV) : HV := from_raw m { o with kind := .raw }
 
 /-- `try_unique`: `if this.is_unique() { Ok(UniqueArc::from_arc(this)) } else { Err(this) }` -/
 def try_unique (m : Mem) (a : HV) : Except HV HV :=
@@ -98,32 +99,24 @@ namespace ArcBorrow
 /-- `borrow_arc`: `ArcBorrow(self.as_ptr())` -/
 def of_arc (m : Mem) (a : HV) : HV := Arc.into_raw m a     -- same bit pattern as the raw pointer; not an owner
 /-- `clone_arc`: `let arc = Arc::from_raw(self.0); mem::forget(arc.clone()); arc` -/
-def clone_arc (m : Mem) (p : HV) : Option (Mem × HV) :=
-  match Arc.from_raw m p with
-  | none => none
-  | some arc =>
-    let (m, _forgotten) := Arc.clone m arc      -- the clone is forgotten: never dropped
-    some (m, arc)
+def clone_arc (m : Mem) (p : HV) : Mem × HV :=
+  let arc := Arc.from_raw m p
+  let (m, _forgotten) := Arc.clone m arc      -- the clone is forgotten: never dropped
+  (m, arc)
 end ArcBorrow
 
 namespace OffsetArc
 /-- `with_arc(|a| ..)`: the transient `ManuallyDrop(Arc::from_raw(self.ptr))` -/
-def transient (m : Mem) (o : HV) : Option HV := Arc.from_raw m { o with kind := .raw }
+def transient (m : Mem) (o : HV) : HV := Arc.from_raw m { o with kind := .raw }
 /-- `clone_arc`: `with_arc(self, |a| a.clone())` -/
-def clone_arc (m : Mem) (o : HV) : Option (Mem × HV) :=
-  match transient m o with
-  | none => none
-  | some t => some (Arc.clone m t)               -- the transient itself is never dropped
+def clone_arc (m : Mem) (o : HV) : Mem × HV :=
+  Arc.clone m (transient m o)               -- the transient itself is never dropped
 /-- `impl Clone`: `Arc::into_raw_offset(self.clone_arc())` -/
-def clone (m : Mem) (o : HV) : Option (Mem × HV) :=
-  match clone_arc m o with
-  | none => none
-  | some (m, a) => some (m, Arc.into_raw_offset m a)
+def clone (m : Mem) (o : HV) : Mem × HV :=
+  let (m, a) := clone_arc m o
+  (m, Arc.into_raw_offset m a)
 /-- `impl Drop`: `let _ = Arc::from_raw_offset(OffsetArc { ptr: self.ptr })` -/
-def drop (m : Mem) (o : HV) : Mem :=
-  match Arc.from_raw_offset m o with
-  | none => m
-  | some a => Arc.drop m a
+def drop (m : Mem) (o : HV) : Mem := Arc.drop m (Arc.from_raw_offset m o)
 end OffsetArc
 
 namespace ThinArc
@@ -158,36 +151,32 @@ def from_second (m : Mem) (a : HV) : HV := { Arc.into_raw m a with kind := .unio
 /-- `borrow()`: strip the tag, `ArcBorrow::from_ptr` with the variant's type -/
 def borrow (u : HV) : HV := { u with kind := .raw }
 /-- `impl Clone`: `from_first(x.clone_arc())` / `from_second(..)` -/
-def clone (m : Mem) (u : HV) : Option (Mem × HV) :=
-  match ArcBorrow.clone_arc m (borrow u) with
-  | none => none
-  | some (m, a) => some (m, if u.kind = .unionA then from_first m a else from_second m a)
+def clone (m : Mem) (u : HV) : Mem × HV :=
+  let (m, a) := ArcBorrow.clone_arc m (borrow u)
+  (m, if u.kind = .unionA then from_first m a else from_second m a)
 /-- `impl Drop`: `let _ = Arc::from_raw(&*x)` with the variant's type -/
-def drop (m : Mem) (u : HV) : Mem :=
-  match Arc.from_raw m (borrow u) with
-  | none => m
-  | some a => Arc.drop m a
+def drop (m : Mem) (u : HV) : Mem := Arc.drop m (Arc.from_raw m (borrow u))
 end ArcUnion
 
 /-! ### uniform dispatch over handle kinds (used by kind-preserving `clone`, `drop`, counts) -/
 
 /-- the `Arc` a handle of any owning kind stands for (no count change) -/
-def asArc (m : Mem) (h : HV) : Option HV :=
+def asArc (m : Mem) (h : HV) : HV :=
   match h.kind with
-  | .arc | .uniq => some { h with kind := .arc }
-  | .thin => some (ThinArc.thick m h)
+  | .arc | .uniq => { h with kind := .arc }
+  | .thin => ThinArc.thick m h
   | .offset => OffsetArc.transient m h
   | .unionA | .unionB => Arc.from_raw m (ArcUnion.borrow h)
   | .raw => Arc.from_raw m h
-  | .rawThin => some (ThinArc.thick m (ThinArc.from_raw h))
+  | .rawThin => ThinArc.thick m (ThinArc.from_raw h)
 
 /-- kind-preserving `Clone::clone` (only for kinds that implement `Clone`) -/
 def cloneHandle (m : Mem) (h : HV) : Option (Mem × HV) :=
   match h.kind with
   | .arc => some (Arc.clone m h)
   | .thin => some (ThinArc.clone m h)
-  | .offset => OffsetArc.clone m h
-  | .unionA | .unionB => ArcUnion.clone m h
+  | .offset => some (OffsetArc.clone m h)
+  | .unionA | .unionB => some (ArcUnion.clone m h)
   | _ => none
 
 /-- `Drop::drop` of an owning handle (raw pointers have no destructor: `none`) -/
